@@ -3,12 +3,20 @@
 
   Anchors (src/prompt_toolkit):
     buffer.py            Buffer._undo_stack / _redo_stack, save_to_undo_stack, undo, redo, reset
-    key_binding/key_processor.py   KeyProcessor._call_handler  (is_repeat, handler.save_before)
+                         (undo / redo also on a read-only buffer: `undoRO` / `redoRO`)
+    key_binding/key_processor.py   KeyProcessor._call_handler  (is_repeat, handler.save_before on
+                                   app.current_buffer, EditReadOnlyBuffer caught, other exceptions propagate),
+                                   KeyProcessor.reset / process_keys' `except` branch, _process_cpr_response,
+                                   _fix_vi_cursor_position, KeyPressEvent.arg / append_to_arg_count
     key_binding/bindings/basic.py  if_no_repeat                 (rule "save unless repeat")
     key_binding/bindings/emacs.py, vi.py, named_commands.py   the undo bindings and the handlers of
                                    the fully modelled key sets (`EKey`, `VKey` below)
     (key_binding/key_bindings.py   KeyBindings.add must hand an explicit save_before on to the Binding:
                                    /repo commit 3961882; before it the rules above were dead code)
+  Generated (harness/gen_c07.py -> Ptk/Gen/C07.lean, rewritten from the current tree on every run):
+    the table of all key bindings with their save_before bits, `keyRows` (the rows the key sets below look
+    up), the functions that touch the stacks, and the probed flag `roChecksFirst`.
+  Several buffers / focus: Ptk/Model/C07Multi.lean.
 
   Conventions.
   * A snapshot is the pair (text, cursor_position) = `Buf`.
@@ -28,6 +36,7 @@
     `redo` restore the pair as it is.
 -/
 import Ptk.Py
+import Ptk.Gen.C07
 namespace Ptk.C07
 open Ptk.Py
 
@@ -74,6 +83,26 @@ def redo (s : St) : St :=
   | [] => s
   | r :: rest => { buf := r, undo := (saveToUndo false s).undo, redo := rest }
 
+/-- `Buffer.undo()` on a READ-ONLY buffer (`read_only()` is true).
+    As shipped (`checksFirst = false`): the `while` loop pops as on a writable buffer; when it finds an
+    entry with another text it first pushes the current state on the redo stack and only then
+    `self.document = …` raises `EditReadOnlyBuffer` — the text stays, the popped entries are gone.
+    With proposed_fixes/C07-readonly-undo-keeps-history.diff (`checksFirst = true`) the read-only check
+    comes first and nothing is touched.  The flag is probed from the running code (Gen.C07.roChecksFirst). -/
+def undoRO (checksFirst : Bool) (s : St) : St :=
+  if checksFirst then s else
+  match undoLoop s.buf s.undo with
+  | some (_, rest) => { buf := s.buf, undo := rest, redo := s.buf :: s.redo }
+  | none => { buf := s.buf, undo := [], redo := s.redo }
+
+/-- `Buffer.redo()` on a READ-ONLY buffer: as shipped, `save_to_undo_stack(clear_redo_stack=False)` and the
+    pop of the redo entry happen before `self.document = …` raises. -/
+def redoRO (checksFirst : Bool) (s : St) : St :=
+  if checksFirst then s else
+  match s.redo with
+  | [] => s
+  | _ :: rest => { buf := s.buf, undo := (saveToUndo false s).undo, redo := rest }
+
 /-! ### a few concrete edits (used by the API-level correspondence; the theorems
     quantify over arbitrary `Buf → Buf`) -/
 
@@ -116,6 +145,8 @@ inductive Act
   | redo
   | save (clear : Bool)
   | reset (doc : Buf)
+  | undoRO (checksFirst : Bool)
+  | redoRO (checksFirst : Bool)
 
 def act (s : St) : Act → St
   | .edit f => { s with buf := f s.buf }
@@ -123,6 +154,8 @@ def act (s : St) : Act → St
   | .redo => redo s
   | .save c => saveToUndo c s
   | .reset d => reset d
+  | .undoRO fx => undoRO fx s
+  | .redoRO fx => redoRO fx s
 
 /-! ### key processor level -/
 
@@ -141,8 +174,40 @@ def callHandler (h : Nat) (rule : Bool → Bool) (body : List Act) (k : KSt) : K
   let s1 := if rule isRepeat then saveToUndo true k.st else k.st
   { st := body.foldl act s1, prev := some h }
 
+/-- how a handler call ends:
+    `ok`        the handler returned;
+    `readOnly`  it raised `EditReadOnlyBuffer`: caught inside `_call_handler` (bell), `_fix_vi_cursor_position`
+                is skipped, everything after the `try` runs as usual (`_previous_handler = handler`);
+    `raised`    any other exception: it leaves `_call_handler` before `_previous_handler` is assigned and
+                `process_keys` answers with `self.reset()` (`_previous_handler = None`, argument and key
+                buffer dropped), `self.empty_queue()`, re-raise. -/
+inductive Outcome
+  | ok | readOnly | raised
+deriving Repr, DecidableEq
+
+/-- `_previous_handler` after a call of handler `h` that ended with outcome `o` -/
+def prevAfter (o : Outcome) (h : Nat) : Option Nat :=
+  match o with
+  | .raised => none
+  | _ => some h
+
+/-- `_call_handler` with its three ways out; `body` = the Buffer calls made before the handler ended
+    (the `save_before` snapshot is taken before the handler runs, so it is kept in all three cases). -/
+def callHandlerO (o : Outcome) (h : Nat) (rule : Bool → Bool) (body : List Act) (k : KSt) : KSt :=
+  let isRepeat := decide (k.prev = some h)
+  let s1 := if rule isRepeat then saveToUndo true k.st else k.st
+  { st := body.foldl act s1, prev := prevAfter o h }
+
 /-- `KeyProcessor.reset()` -/
 def kpReset (k : KSt) : KSt := { k with prev := none }
+
+/-- a change of text / cursor made outside `_call_handler` (an asynchronous completion that arrives
+    between two keys, application code): no snapshot, stacks and `_previous_handler` untouched. -/
+def extEdit (f : Buf → Buf) (k : KSt) : KSt := { k with st := { k.st with buf := f k.st.buf } }
+
+/-- a new prompt on the same objects: `Buffer.reset(doc)` and `Application.reset()` (which calls
+    `KeyProcessor.reset()`). -/
+def restart (doc : Buf) (k : KSt) : KSt := kpReset { k with st := reset doc }
 
 /-- `KeyProcessor._process_cpr_response`: a cursor position report (`ESC [ row ; col R`, key
     `Keys.CPRResponse`) that arrives at any key boundary is answered by calling its handler
@@ -151,14 +216,31 @@ def kpReset (k : KSt) : KSt := { k with prev := none }
     For the undo machinery it is the identity. -/
 def cprResponse (k : KSt) : KSt := k
 
-/-! ### the shipped emacs bindings, fully modelled (a small key set)
+/-! ### the `save_before` bits of the shipped bindings: READ from the regenerated table
 
-    basic.py / emacs.py / named_commands.py:
-      Keys.Any  -> self-insert            save_before = if_no_repeat
-      backspace -> backward-delete-char   save_before = if_no_repeat
-      delete    -> delete-char            save_before = if_no_repeat
-      left / right / home / end / c-k     default save_before (always)
-      c-_ , c-x c-u -> undo               save_before = never
+    `Gen.C07.table` (harness/gen_c07.py) lists every binding a PromptSession can dispatch with its
+    `save_before` evaluated for is_repeat = false / true on the real `Binding` object.  The fully
+    modelled key sets below take their rules from it by (handler, keys); nothing about
+    `if_no_repeat` / `save_before=False` is hard-coded in the model. -/
+
+def rowRule (r : Gen.C07.Row) : Bool → Bool := fun rep => if rep then r.r1 else r.r0
+
+/-- the rule of the binding `(handler name, keys)`; the default of `KeyBindings.add` when it is not listed.
+    (Looked up in `Gen.C07.keyRows`, the copy of the rows of the modelled bindings: string comparisons are
+    slow in the kernel; `gen_keyRows_ok` re-checks that every entry is the row of `Gen.C07.table` at its index.) -/
+@[irreducible] def ruleOf (name keys : String) : Bool → Bool :=
+  match Gen.C07.keyRows.find? (fun p => p.2.name == name && p.2.keys == keys) with
+  | some p => rowRule p.2
+  | none => fun _ => true
+
+/-! ### the shipped emacs bindings, fully modelled (a key set)
+
+    basic.py / emacs.py / named_commands.py (rule = what the table says today):
+      Keys.Any  -> self-insert            if_no_repeat
+      backspace -> backward-delete-char   if_no_repeat
+      delete    -> delete-char            if_no_repeat   (C-Delete is kill-word in emacs mode)
+      left / right / home / end / c-a / c-e / c-b / c-f / c-k / c-u     default (always)
+      c-_ , c-x c-u -> undo               never
     plus a harness binding that calls `Buffer.redo()` (never saves; the library has no redo key).
     No numeric argument (`event.arg = 1`). -/
 
@@ -170,79 +252,141 @@ def lineAfterLen (b : Buf) : Nat := ((b.text.drop b.cur).takeWhile (· ≠ '\n')
 inductive EKey
   | char (c : Char) | backspace | delete | left | right | home | eol | killLine
   | undo | undoXU | redo
+  | ctrlA | ctrlE | ctrlB | ctrlF | ctrlU
 deriving Repr, DecidableEq
 
 /-- identity of the `Binding` that handles the key -/
 def EKey.hid : EKey → Nat
   | .char _ => 0 | .backspace => 1 | .delete => 2 | .left => 3 | .right => 4 | .home => 5
   | .eol => 6 | .killLine => 7 | .undo => 8 | .undoXU => 9 | .redo => 10
+  | .ctrlA => 11 | .ctrlE => 12 | .ctrlB => 13 | .ctrlF => 14 | .ctrlU => 16
+
+/-- (handler, keys) of that binding in the generated table; the harness redo binding is not a shipped one -/
+def EKey.row : EKey → Option (String × String)
+  | .char _ => some ("named_commands.self_insert", "<any>")
+  | .backspace => some ("named_commands.backward_delete_char", "c-h")
+  | .delete => some ("named_commands.delete_char", "delete")
+  | .left => some ("named_commands.backward_char", "left")
+  | .right => some ("named_commands.forward_char", "right")
+  | .home => some ("named_commands.beginning_of_line", "home")
+  | .eol => some ("named_commands.end_of_line", "end")
+  | .killLine => some ("named_commands.kill_line", "c-k")
+  | .undo => some ("named_commands.undo", "c-_")
+  | .undoXU => some ("named_commands.undo", "c-x+c-u")
+  | .redo => none
+  | .ctrlA => some ("named_commands.beginning_of_line", "c-a")
+  | .ctrlE => some ("named_commands.end_of_line", "c-e")
+  | .ctrlB => some ("named_commands.backward_char", "c-b")
+  | .ctrlF => some ("named_commands.forward_char", "c-f")
+  | .ctrlU => some ("named_commands.unix_line_discard", "c-u")
 
 /-- `save_before` of that binding as a function of `is_repeat` -/
-def EKey.rule : EKey → Bool → Bool
-  | .char _, rep => !rep | .backspace, rep => !rep | .delete, rep => !rep
-  | .left, _ => true | .right, _ => true | .home, _ => true | .eol, _ => true | .killLine, _ => true
-  | .undo, _ => false | .undoXU, _ => false | .redo, _ => false
+def EKey.rule (key : EKey) : Bool → Bool :=
+  match key.row with
+  | some (n, k) => ruleOf n k
+  | none => fun _ => false
 
 def killLine (b : Buf) : Buf :=
   if b.text[b.cur]? = some '\n' then delete 1 b else delete (lineAfterLen b) b
 
+def leftInLine (b : Buf) : Buf := setCursor ((b.cur : Int) - min (lineBeforeLen b) 1) b
+def rightInLine (b : Buf) : Buf := setCursor ((b.cur : Int) + min (lineAfterLen b) 1) b
+def toBol (b : Buf) : Buf := setCursor ((b.cur : Int) - lineBeforeLen b) b
+def toEol (b : Buf) : Buf := setCursor ((b.cur : Int) + lineAfterLen b) b
+
+/-- `unix-line-discard`: at column 0 (not at the start of the text) the newline before the cursor goes,
+    otherwise everything between the start of the line and the cursor -/
+def lineDiscard (b : Buf) : Buf :=
+  if lineBeforeLen b = 0 ∧ 0 < b.cur then deleteBefore 1 b else deleteBefore (lineBeforeLen b) b
+
+/-- what the handler does to (text, cursor) -/
+def EKey.edit : EKey → Buf → Buf
+  | .char c => insertText [c]
+  | .backspace => deleteBefore 1
+  | .delete => Ptk.C07.delete 1
+  | .left => leftInLine
+  | .ctrlB => leftInLine
+  | .right => rightInLine
+  | .ctrlF => rightInLine
+  | .home => toBol
+  | .ctrlA => toBol
+  | .eol => toEol
+  | .ctrlE => toEol
+  | .killLine => Ptk.C07.killLine
+  | .ctrlU => lineDiscard
+  | _ => id
+
 def EKey.acts : EKey → List Act
-  | .char c => [.edit (insertText [c])]
-  | .backspace => [.edit (deleteBefore 1)]
-  | .delete => [.edit (Ptk.C07.delete 1)]
-  | .left => [.edit fun b => setCursor ((b.cur : Int) - min (lineBeforeLen b) 1) b]
-  | .right => [.edit fun b => setCursor ((b.cur : Int) + min (lineAfterLen b) 1) b]
-  | .home => [.edit fun b => setCursor ((b.cur : Int) - lineBeforeLen b) b]
-  | .eol => [.edit fun b => setCursor ((b.cur : Int) + lineAfterLen b) b]
-  | .killLine => [.edit Ptk.C07.killLine]
   | .undo => [.undo]
   | .undoXU => [.undo]
   | .redo => [.redo]
+  | key => [.edit key.edit]
 
 /-- one key press in emacs mode -/
 def ekey (k : KSt) (key : EKey) : KSt := callHandler key.hid key.rule key.acts k
 
-/-! ### the shipped Vi bindings, fully modelled (a small key set)
+/-! ### the shipped Vi bindings, fully modelled (a key set)
 
-    vi.py: `escape` (_back_to_navigation), `i`, `a`, `x`, `u` in navigation mode (default
-    save_before, except `u`: never); in insert mode the printable keys go to the SAME self-insert
-    binding of basic.py as in emacs mode (if_no_repeat).  `_fix_vi_cursor_position` runs after every
-    handler and acts when the editor is (now) in navigation mode.  No counts. -/
+    vi.py: `escape` (_back_to_navigation), `i`, `a`, `A`, `x`, `X`, `u`, the count digits `2`, `3` in
+    navigation mode (rules from the table: default, except `u`: never); in insert mode the printable
+    keys go to the SAME self-insert binding of basic.py as in emacs mode (if_no_repeat).
+    `_fix_vi_cursor_position` runs after every handler and acts when the editor is (now) in navigation
+    mode.  Counts: `KeyProcessor.arg` is a digit string, cleared at the start of every `_call_handler`;
+    `event.arg` = its value, or 1 when it is absent or ≥ 1000000. -/
 
 inductive VKey
-  | i | a | x | u | escape | redo
+  | i | a | x | u | escape | redo | bigA | bigX | d2 | d3
 deriving Repr, DecidableEq
 
 /-- the character the key inserts in insert mode -/
 def VKey.letter : VKey → Char
-  | .i => 'i' | .a => 'a' | .x => 'x' | .u => 'u' | _ => ' '
+  | .i => 'i' | .a => 'a' | .x => 'x' | .u => 'u' | .bigA => 'A' | .bigX => 'X' | .d2 => '2' | .d3 => '3'
+  | _ => ' '
 
 structure VSt where
   k : KSt
   ins : Bool        -- vi_state.input_mode == INSERT (otherwise NAVIGATION)
+  arg : Option Nat  -- KeyProcessor.arg (a string of the digits 2 / 3 here, read as a number)
 deriving Repr, DecidableEq
 
 /-- a fresh Vi session starts in insert mode -/
-def vInit (doc : Buf) : VSt := { k := kInit doc, ins := true }
+def vInit (doc : Buf) : VSt := { k := kInit doc, ins := true, arg := none }
 
-def leftInLine (b : Buf) : Buf := setCursor ((b.cur : Int) - min (lineBeforeLen b) 1) b
-def rightInLine (b : Buf) : Buf := setCursor ((b.cur : Int) + min (lineAfterLen b) 1) b
-def viX (b : Buf) : Buf := delete (min 1 (lineAfterLen b)) b
+/-- `KeyPressEvent.arg` -/
+def argVal : Option Nat → Nat
+  | none => 1
+  | some n => if n ≥ 1000000 then 1 else n
+
+def viX (n : Nat) (b : Buf) : Buf := delete (min n (lineAfterLen b)) b
+def viBigX (n : Nat) (b : Buf) : Buf := deleteBefore (min n (lineBeforeLen b)) b
+
+def vRuleOf (fn keys : String) : Bool → Bool := ruleOf ("vi.load_vi_bindings." ++ fn) keys
 
 /-- one key press in Vi mode -/
 def vkey (v : VSt) (key : VKey) : VSt :=
+  let n := argVal v.arg
   if v.ins then
     match key with
-    | .escape => { k := callHandler 20 (fun _ => true) [.edit leftInLine, .edit viFix] v.k, ins := false }
-    | .redo => { k := callHandler 10 (fun _ => false) [.redo] v.k, ins := true }
-    | key => { k := callHandler 0 (fun rep => !rep) [.edit (insertText [key.letter])] v.k, ins := true }
+    | .escape => { k := callHandler 20 (vRuleOf "_back_to_navigation" "escape") [.edit leftInLine, .edit viFix] v.k,
+                   ins := false, arg := none }
+    | .redo => { k := callHandler 10 (fun _ => false) [.redo] v.k, ins := true, arg := none }
+    | key => { k := callHandler 0 (ruleOf "named_commands.self_insert" "<any>") [.edit (insertText [key.letter])] v.k,
+               ins := true, arg := none }
   else
     match key with
-    | .i => { k := callHandler 21 (fun _ => true) [] v.k, ins := true }
-    | .a => { k := callHandler 22 (fun _ => true) [.edit rightInLine] v.k, ins := true }
-    | .x => { k := callHandler 23 (fun _ => true) [.edit viX, .edit viFix] v.k, ins := false }
-    | .u => { k := callHandler 24 (fun _ => false) [.undo, .edit viFix] v.k, ins := false }
-    | .escape => { k := callHandler 20 (fun _ => true) [.edit viFix] v.k, ins := false }
-    | .redo => { k := callHandler 10 (fun _ => false) [.redo, .edit viFix] v.k, ins := false }
+    | .i => { k := callHandler 21 (vRuleOf "_i" "i") [] v.k, ins := true, arg := none }
+    | .a => { k := callHandler 22 (vRuleOf "_a" "a") [.edit rightInLine] v.k, ins := true, arg := none }
+    | .bigA => { k := callHandler 25 (vRuleOf "_A" "A") [.edit toEol] v.k, ins := true, arg := none }
+    | .x => { k := callHandler 23 (vRuleOf "_delete" "x") [.edit (viX n), .edit viFix] v.k, ins := false, arg := none }
+    | .bigX => { k := callHandler 26 (vRuleOf "_delete_before_cursor" "X") [.edit (viBigX n), .edit viFix] v.k,
+                 ins := false, arg := none }
+    | .u => { k := callHandler 24 (vRuleOf "_undo" "u") (List.replicate n .undo ++ [.edit viFix]) v.k,
+              ins := false, arg := none }
+    | .escape => { k := callHandler 20 (vRuleOf "_back_to_navigation" "escape") [.edit viFix] v.k, ins := false, arg := none }
+    | .redo => { k := callHandler 10 (fun _ => false) [.redo, .edit viFix] v.k, ins := false, arg := none }
+    | .d2 => { k := callHandler 27 (vRuleOf "_arg" "2") [.edit viFix] v.k, ins := false,
+               arg := some ((v.arg.getD 0) * 10 + 2) }
+    | .d3 => { k := callHandler 28 (vRuleOf "_arg" "3") [.edit viFix] v.k, ins := false,
+               arg := some ((v.arg.getD 0) * 10 + 3) }
 
 end Ptk.C07
